@@ -5,7 +5,7 @@
 //! a chip that has been through a sleep without retention or a reset since a value was last written
 //! holds none.
 
-use super::{freq, power, timeout};
+use super::{freq, power, status, timeout};
 use crate::drive::panic_failure;
 use crate::props::hist::{self, Hist, Mod, Mode, Op, Outcome, Pkt, RxEnd, KIND, LORA, LORAWAN};
 use serde_json::{json, Value};
@@ -19,6 +19,13 @@ const SYMBS: [u16; 3] = [5, 300, 1100];
 /// band edges and the remaining bands: judged after every prefix of depth 0..=1
 const EDGE_FREQS: [u32; 9] = [137_000_000, 169_400_000, 399_999_999, 400_000_000, 470_300_000, 525_000_000, 779_500_000, 902_300_000, 1_020_000_000];
 const SUFFIX: &str = "/after-history";
+/// chips of the packet-status requests (the PA path does not matter here): SX1261, SX1262, SX1276, SX1272
+const STATUS_VARIANTS: [(usize, u8); 4] = [(0, 0), (1, 0), (4, 0), (5, 0)];
+/// the two bands of the packet-status requests: SX1276 HF port (offset -157) and LF port (offset -164)
+const STATUS_FREQS: [u32; 2] = [868_100_000, 433_175_000];
+/// raw packet status (RSSI byte, SNR byte, SX126x signal-RSSI byte): SNR positive / negative / extremes, RSSI 0, 1, 127, 255
+const RAW_STATUS: [[u8; 3]; 5] = [[0, 0x14, 88], [1, 0xF3, 0], [127, 0x80, 255], [255, 0x7F, 1], [70, 0xFF, 127]];
+const RAW_RSSI: [u8; 4] = [0, 1, 127, 255];
 
 fn variant_of(h: &Hist) -> usize {
     let name = match hist::CHIPS[h.chip] {
@@ -61,6 +68,70 @@ fn requested(j: &Op) -> (Option<u32>, Option<(i64, Option<u32>)>, Option<u32>) {
     }
 }
 
+/// the packet-status part of a judged operation: (raw packet status, raw instantaneous RSSI)
+fn requested_status(j: &Op) -> (Option<[u8; 3]>, Option<u8>) {
+    match j {
+        Op::RxStat { raw, .. } | Op::Complete { raw, .. } | Op::KStatus { raw, .. } | Op::LwRxStat { raw, .. } => (Some(*raw), None),
+        Op::Rssi { raw, .. } | Op::KRssi { raw, .. } => (None, Some(*raw)),
+        _ => (None, None),
+    }
+}
+
+/// frequency (Hz) the SX127x double holds in RegFrf: f = Frf * 32 MHz / 2^19
+fn held_hz_127(word: Option<u32>) -> Option<u32> {
+    word.map(|w| ((w as u64 * 32_000_000) >> 19) as u32)
+}
+
+/// Packet status / instantaneous RSSI reported by the judged operation against the datasheet conversion of the raw
+/// bytes — for the SX1276 with the offset of the port that serves the frequency the chip HOLDS in RegFrf at that moment.
+fn judge_status(h: &Hist, out: &Outcome) -> HV {
+    let (raw, raw_inst) = requested_status(h.judged());
+    let last = &out.last;
+    let chip = hist::CHIPS[h.chip];
+    let fam = hist::family(h.chip);
+    let hz = if fam == "sx127x" { held_hz_127(last.held.freq_word) } else { None };
+    if chip == "sx1276" {
+        // between the documented bands (525 .. 779 MHz) the port, and with it the offset, is not defined
+        match hz {
+            Some(f) if f > 525_000_000 && f < 779_000_000 => return HV::NotJudged("status:frequency-between-the-sx1276-bands"),
+            None => return HV::NotJudged("status:no-frequency-held"),
+            _ => {}
+        }
+    }
+    let case = || {
+        let mut c = h.json("C17");
+        c["held_frequency_hz"] = json!(hz);
+        c
+    };
+    let at = match hz {
+        Some(f) => format!(" with {f} Hz in the chip's frequency registers"),
+        None => String::new(),
+    };
+    if let Some(raw) = raw {
+        let Some((rssi, snr)) = last.status else {
+            return HV::NotJudged("status:judged-op-refused-or-failed");
+        };
+        let r = if fam == "sx126x" { status::judge126_at(&case, raw, rssi, snr, SUFFIX) } else { status::judge127_at(&case, chip, hz.unwrap_or(0), raw[1], raw[0], rssi, snr, SUFFIX) };
+        if let Err(mut e) = r {
+            e.detail = format!("{} as the last step of the history{at}: {}", hist::op_name(h.judged()), e.detail);
+            return HV::Fail(e);
+        }
+    }
+    if let Some(raw) = raw_inst {
+        let Some(v) = last.rssi_inst else {
+            return HV::NotJudged("status:judged-op-refused-or-failed");
+        };
+        let (ok, want) = if fam == "sx126x" { ((2 * v + raw as i64).abs() <= 2, -(raw as i64) / 2) } else { ((v - (status::offset127(chip, hz.unwrap_or(0)) + raw as i64)).abs() <= 1, status::offset127(chip, hz.unwrap_or(0)) + raw as i64) };
+        if !ok {
+            return HV::Fail(
+                Failure::new("rssi-inst", case(), format!("{} as the last step of the history{at}: raw instantaneous RSSI {raw}: datasheet {want} dBm, reported {v} dBm", hist::op_name(h.judged())))
+                    .with_fp(format!("rssi-inst/{}{SUFFIX}", if fam == "sx126x" { "sx126x" } else { chip })),
+            );
+        }
+    }
+    HV::Ok(1)
+}
+
 pub enum HV {
     Ok(u32),
     NotJudged(&'static str),
@@ -68,6 +139,12 @@ pub enum HV {
 }
 
 pub fn judge_hist(h: &Hist, out: &Outcome) -> HV {
+    if requested_status(h.judged()) != (None, None) {
+        if out.setup_err.is_some() {
+            return HV::NotJudged("driver-bring-up-failed");
+        }
+        return judge_status(h, out);
+    }
     let (f, p, n) = requested(h.judged());
     if f.is_none() && p.is_none() && n.is_none() {
         return HV::NotJudged("judged-op-requests-nothing-decodable");
@@ -207,6 +284,57 @@ fn requests(level: usize) -> Vec<Op> {
     v
 }
 
+/// packet-status requests of a level, in both bands
+fn status_requests(level: usize) -> Vec<Op> {
+    let mut v = vec![];
+    for (fi, &f) in STATUS_FREQS.iter().enumerate() {
+        let m = modu(f);
+        let p = Pkt::new(false, 255);
+        for (ri, &raw) in RAW_STATUS.iter().enumerate() {
+            match level {
+                KIND => v.push(Op::KStatus { m, raw }),
+                LORA => {
+                    let via = ((ri + fi) % 2) as u8;
+                    v.push(Op::RxStat { m, p, mode: if ri % 2 == 0 { Mode::Single(20) } else { Mode::Continuous }, raw, via });
+                    v.push(Op::Complete { m, p, raw, via: 1 - via });
+                }
+                _ => v.push(Op::LwRxStat { m, ms: if (ri + fi) % 2 == 0 { Some(20) } else { None }, raw }),
+            }
+        }
+        for &raw in RAW_RSSI.iter() {
+            match level {
+                KIND => v.push(Op::KRssi { m, raw }),
+                LORA => v.push(Op::Rssi { m, raw }),
+                _ => {}
+            }
+        }
+    }
+    v
+}
+
+/// does the prefix contain an operation in the other band than the one the chip holds at the end? (evidence class)
+fn band_class(h: &Hist, out: &Option<Outcome>) -> &'static str {
+    let hf = |f: u32| f > 600_000_000;
+    let held = match out {
+        Some(o) if hist::family(h.chip) == "sx127x" => held_hz_127(o.last.held.freq_word),
+        _ => None,
+    };
+    let (m, _, _) = hist::context(h.judged());
+    let end_band = hf(held.unwrap_or(m.freq));
+    let freq_of = |o: &Op| -> Option<u32> {
+        match o {
+            Op::Tx { m, .. } | Op::Rx { m, .. } | Op::Rx2 { m, .. } | Op::Cad { m } | Op::Cw { m, .. } | Op::KMod { m } | Op::KDoCad { m } | Op::LwTx { m, .. } | Op::LwRx { m, .. } | Op::LwRx2 { m, .. } => Some(m.freq),
+            Op::Listen { freq, .. } | Op::Switch { freq } | Op::KChannel { freq } => Some(*freq),
+            _ => None,
+        }
+    };
+    if h.ops[..h.ops.len() - 1].iter().filter_map(freq_of).any(|f| hf(f) != end_band) {
+        "cross-band"
+    } else {
+        "same-band"
+    }
+}
+
 fn account(h: &Hist, out: &Option<Outcome>, v: HV, st: &mut Stats, enumerated: bool, min_hash_len: usize) {
     st.eval();
     st.class(&format!("history:{}:{}", hist::LEVELS[h.level], power::VARIANTS[variant_of(h)]));
@@ -230,6 +358,18 @@ fn account(h: &Hist, out: &Option<Outcome>, v: HV, st: &mut Stats, enumerated: b
             st.nt_hash(hash_value(&h.json("C17")));
         }
     }
+    if requested_status(h.judged()) != (None, None) {
+        let verdict = match &v {
+            HV::NotJudged(_) => "not-judged",
+            _ => "judged",
+        };
+        st.class(&format!("status/{}/{}/{}/{verdict}", hist::CHIPS[h.chip], hist::LEVELS[h.level], band_class(h, out)));
+        if hist::CHIPS[h.chip] == "sx1276" && verdict == "judged" {
+            if let Some(f) = out.as_ref().and_then(|o| held_hz_127(o.last.held.freq_word)) {
+                st.class(&format!("status/sx1276/port:{}", if f >= 779_000_000 { "HF(-157)" } else { "LF(-164)" }));
+            }
+        }
+    }
     match v {
         HV::Ok(k) => {
             st.class_n("history:judged-quantities", k as u64);
@@ -250,7 +390,7 @@ fn account(h: &Hist, out: &Option<Outcome>, v: HV, st: &mut Stats, enumerated: b
     }
 }
 
-pub const RULE: &str = " STATEFUL STAGE (props/hist.rs; this part uses VERIF_SEED for its random histories): the judged request is the last step of a history executed on ONE driver instance over ONE chip double that forgets like the silicon (SX126x: a sleep without retention and NRESET lose RF frequency, PA configuration, TX parameters, symbol timeout, modulation and packet parameters; SX127x: registers survive sleep, NRESET restores the documented reset values, which are then what the chip holds) and records the configuration in effect when SetTx / SetRx / SetCad (RegOpMode TX / RX / CAD) is commanded; that state is decoded with the same datasheet oracles as above for the request of the last step: synthesiser word vs requested frequency, PA settings vs requested power at SetTx, symbol timeout vs requested count at SetRx. 8 PA paths (SX1261, SX1262, STM32WL HP/LP, SX1276 RFO/PA_BOOST, SX1272 RFO/PA_BOOST); frequencies 868.1 / 923.2 / 433.175 MHz, powers 14 / 20 / -3 dBm, symbol counts 5 / 300 / 1100; levels RadioKind (set_channel, set_tx_power_and_ramp_time, do_rx judged after set_channel / set_modulation_params / set_packet_params / set_tx_power / set_sleep warm+cold / reset / init_lora / set_standby / do_tx / do_rx / do_cad), LoRa (prepare_for_tx+tx, prepare_for_rx+rx, prepare_for_cad+cad, listen judged after the same kinds of operation with the SAME and with DIFFERENT frequency / power / parameters, receptions completed, timed out or never started, rx_switch_channel, sleep warm+cold, init) and LorawanRadio (tx, setup_rx+rx_single judged after tx / setup_rx+rx / low_power). ENUMERATED: every prefix of depth 0..=2 over that alphabet for every judged request (thorough: depth 3 at the LoRa level for 868.1 MHz), and depth 0..=1 for requests at the band edges 137 / 169.4 / 399.999999 / 400.0 / 470.3 / 525 / 779.5 / 902.3 / 1020 MHz; coding rate, rx_boost and TCXO vary with the request. RANDOM: proptest histories of 1..=8 prefix operations (shrinking), also with continuous_wave, enter_standby, duty-cycle / continuous receive modes. Non-trivial = judged after a non-empty prefix (enumerated: distinct by construction; random: by hash when longer than every enumerated history).";
+pub const RULE: &str = " STATEFUL STAGE (props/hist.rs; this part uses VERIF_SEED for its random histories): the judged request is the last step of a history executed on ONE driver instance over ONE chip double that forgets like the silicon (SX126x: a sleep without retention and NRESET lose RF frequency, PA configuration, TX parameters, symbol timeout, modulation and packet parameters; SX127x: registers survive sleep, NRESET restores the documented reset values, which are then what the chip holds) and records the configuration in effect when SetTx / SetRx / SetCad (RegOpMode TX / RX / CAD) is commanded; that state is decoded with the same datasheet oracles as above for the request of the last step: synthesiser word vs requested frequency, PA settings vs requested power at SetTx, symbol timeout vs requested count at SetRx. 8 PA paths (SX1261, SX1262, STM32WL HP/LP, SX1276 RFO/PA_BOOST, SX1272 RFO/PA_BOOST); frequencies 868.1 / 923.2 / 433.175 MHz, powers 14 / 20 / -3 dBm, symbol counts 5 / 300 / 1100; levels RadioKind (set_channel, set_tx_power_and_ramp_time, do_rx judged after set_channel / set_modulation_params / set_packet_params / set_tx_power / set_sleep warm+cold / reset / init_lora / set_standby / do_tx / do_rx / do_cad), LoRa (prepare_for_tx+tx, prepare_for_rx+rx, prepare_for_cad+cad, listen judged after the same kinds of operation with the SAME and with DIFFERENT frequency / power / parameters, receptions completed, timed out or never started, rx_switch_channel, sleep warm+cold, init) and LorawanRadio (tx, setup_rx+rx_single judged after tx / setup_rx+rx / low_power). ENUMERATED: every prefix of depth 0..=2 over that alphabet for every judged request (thorough: depth 3 at the LoRa level for 868.1 MHz), and depth 0..=1 for requests at the band edges 137 / 169.4 / 399.999999 / 400.0 / 470.3 / 525 / 779.5 / 902.3 / 1020 MHz; coding rate, rx_boost and TCXO vary with the request. Every alphabet also holds operations in the OTHER frequency band (433.175 <-> 868.1 MHz): rx_switch_channel, prepare_for_tx+tx, prepare_for_rx, listen, cad (LoRa), set_channel and set_modulation_params (RadioKind), tx and setup_rx+rx (adapter). PACKET STATUS as the judged request (SX1261, SX1262, SX1276, SX1272; both bands): raw status bytes {(0, +5 dB), (1, -3.25 dB), (127, -32 dB), (255, +31.75 dB), (70, -0.25 dB)} (SX126x: with signal-RSSI bytes 88 / 0 / 255 / 1 / 127) and raw instantaneous RSSI 0 / 1 / 127 / 255 are put into the chip double and the PacketStatus / RxQuality / get_rssi value reported by RadioKind get_rx_packet_status / get_rssi, by LoRa prepare_for_rx+rx and start_rx+get_rx_result, by a reception that completes NOW on whatever receive operation the history left running (complete_rx / get_rx_result without preparing or starting anything: e.g. after prepare_for_rx on one band + rx_switch_channel to the other), by LoRa get_rssi, and by LorawanRadio setup_rx+rx_single / rx_continuous is judged with the status oracle above (1 dB) for the frequency the chip double HOLDS in its frequency registers at that moment (SX1276: LF offset -164 up to 525 MHz, HF offset -157 from 779 MHz, not judged in between; SX1272 -139; SX126x no frequency dependence), after every prefix of depth 0..=2; evidence classes status/<chip>/<level>/{cross-band,same-band}/{judged,not-judged} and status/sx1276/port:*. RANDOM: proptest histories of 1..=8 prefix operations (shrinking), also with continuous_wave, enter_standby, duty-cycle / continuous receive modes. Non-trivial = judged after a non-empty prefix (enumerated: distinct by construction; random: by hash when longer than every enumerated history).";
 
 pub fn stage(ctx: &mut Ctx) {
     let full = ctx.tier == Tier::Thorough;
@@ -278,7 +418,26 @@ pub fn stage(ctx: &mut Ctx) {
                     };
                     // rx_boost and TCXO vary with the request (the PA pin / DC-DC bit belongs to the PA path)
                     let board = board | (ji as u8 & 1) | ((ji as u8 >> 1) & 1) << 2;
-                    for pre in hist::prefixes(level, &j, depth) {
+                    for pre in hist::prefixes_with(level, &j, depth, true) {
+                        let mut ops = pre;
+                        ops.push(j);
+                        let h = Hist { chip, board, level, ops };
+                        let (out, v) = run_hist(&h);
+                        account(&h, &out, v, st, true, 0);
+                    }
+                }
+            }
+        }
+        // packet status / instantaneous RSSI as the judged request
+        for &(chip, board) in STATUS_VARIANTS.iter() {
+            for level in [KIND, LORA, LORAWAN] {
+                for (ji, j) in status_requests(level).into_iter().enumerate() {
+                    job += 1;
+                    if job % n != ti {
+                        continue;
+                    }
+                    let board = board | (ji as u8 & 1) | ((ji as u8 >> 1) & 1) << 2;
+                    for pre in hist::prefixes_with(level, &j, 2, true) {
                         let mut ops = pre;
                         ops.push(j);
                         let h = Hist { chip, board, level, ops };
@@ -292,8 +451,8 @@ pub fn stage(ctx: &mut Ctx) {
     let cases: u32 = if full { 40_000 } else { 1_500 };
     let enumerated_depth = if full { 3 } else { 2 };
     ctx.parallel(|ti, _n, st| {
-        let reqs: Vec<Vec<Op>> = [KIND, LORA, LORAWAN].iter().map(|l| requests(*l).into_iter().chain(edge_requests(*l)).collect()).collect();
-        let strat = (0usize..VARIANTS.len() * 3, 0u8..4, hist::strategy(10_000, 8));
+        let reqs: Vec<Vec<Op>> = [KIND, LORA, LORAWAN].iter().map(|l| requests(*l).into_iter().chain(edge_requests(*l)).chain(status_requests(*l)).collect()).collect();
+        let strat = (0usize..VARIANTS.len() * 3, 0u8..4, hist::strategy_cross(10_000, 8));
         let f = run_proptest(strat, cases, seed ^ 0xC17_0000 ^ ((ti as u64) << 40), st, |(combo, opt, (ri, aops)), st| {
             let (chip, board) = VARIANTS[combo % VARIANTS.len()];
             let board = board | (opt & 1) | (opt & 2) << 1;
